@@ -24,7 +24,7 @@ func main() {
 	opt := rewrite.Default(*repo, *vs, *out)
 	if !*pools {
 		opt.AllowSync = []string{"runtime/internal/luagc/clonepool.go", "runtime/internal/luagc/unsafepool.go"}
-		opt.SyncFiles = []string{"runtime/thread.go"}
+		opt.SyncFiles = []string{"runtime/thread.go", "lib/base/collectgarbage.go"}
 	}
 	if *globals {
 		opt.GoFunctionMarks = true
